@@ -8,6 +8,8 @@ mod state;
 pub mod stats;
 mod testing;
 pub mod tip_heights;
+#[cfg(melstf_verif)]
+pub mod verif;
 
 pub use crate::genesis::*;
 pub use crate::smtmapping::*;
